@@ -314,6 +314,26 @@ pub fn run(ctx: &mut Ctx) {
             eval_filters(ctx, "all", &[mk(Bound::Unbounded, Bound::Excluded(a))]);
         }
     }
+    // extreme bounds: the ends of the usize range in every bound shape
+    if ctx.shard == 0 {
+        let ext = [0usize, 1, usize::MAX - 1, usize::MAX];
+        let mk_b = |v: usize| [Bound::Included(v), Bound::Excluded(v)];
+        for wh in 0..2 {
+            let mk = |l: Bound<usize>, h: Bound<usize>| if wh == 0 { Filter::Width(l, h) } else { Filter::Height(l, h) };
+            for a in ext.iter().chain([8usize, 16, 144].iter()) {
+                for lo in mk_b(*a) {
+                    eval_filters(ctx, "all", &[mk(lo, Bound::Unbounded)]);
+                    eval_filters(ctx, "default", &[mk(Bound::Unbounded, lo)]);
+                    for b in ext.iter().chain([20usize, 144].iter()) {
+                        for hi in mk_b(*b) {
+                            eval_filters(ctx, "all", &[mk(lo, hi)]);
+                        }
+                    }
+                }
+            }
+        }
+        ctx.count("extreme_bounds_checked");
+    }
     if ctx.shard == 0 {
         eval_filters(ctx, "all", &[Filter::Width(Bound::Unbounded, Bound::Unbounded)]);
         eval_filters(ctx, "all", &[Filter::Height(Bound::Unbounded, Bound::Unbounded)]);
@@ -321,7 +341,7 @@ pub fn run(ctx: &mut Ctx) {
     ctx.exhaustive.insert("48_sizes_x_6_attributes".into(), true);
     ctx.exhaustive.insert("width_height_ranges_bounds_0..=150_all_bound_shapes".into(), true);
     // compositions
-    for _ in 0..ctx.budget(40_000, 2_000_000) {
+    for _ in 0..ctx.budget(200_000, 3_000_000) {
         let base = match ctx.rng.below(4) {
             0 => "default".to_string(),
             1 => "all".to_string(),
@@ -349,12 +369,12 @@ pub fn run(ctx: &mut Ctx) {
         eval_filters(ctx, "empty", &[]);
     }
     ctx.exhaustive.insert("whitelists_of_size_le_2".into(), true);
-    for _ in 0..ctx.budget(20_000, 1_000_000) {
+    for _ in 0..ctx.budget(100_000, 2_000_000) {
         let wl = rand_whitelist(ctx);
         eval_filters(ctx, &wl, &[]);
     }
     // picks
-    for _ in 0..ctx.budget(20_000, 1_000_000) {
+    for _ in 0..ctx.budget(60_000, 2_000_000) {
         let spec = match ctx.rng.below(4) {
             0 => "default".to_string(),
             1 => "all".to_string(),
